@@ -106,7 +106,21 @@ func selection(c *core.Ctx, rec, node *core.Fn, trueNil bool) {
 			return nil
 		}
 		if depth > 0 {
-			if d, ok := tt.SingleDef(info, body, id); ok && d.Rhs != nil && d.Index == -1 && d.Range == nil {
+			d, ok := tt.SingleDef(info, body, id)
+			if !ok {
+				// declared first (`var p *T`, nil) and assigned once
+				var assigns []tt.Def
+				for _, dd := range tt.DefsOf(info, body, core.ObjOf(info, id)) {
+					if _, isDecl := dd.Stmt.(*ast.ValueSpec); isDecl && dd.Rhs == nil {
+						continue
+					}
+					assigns = append(assigns, dd)
+				}
+				if _, isPtr := info.TypeOf(id).(*types.Pointer); isPtr && len(assigns) == 1 {
+					d, ok = assigns[0], true
+				}
+			}
+			if ok && d.Rhs != nil && d.Index == -1 && d.Range == nil {
 				if u, ok := ast.Unparen(d.Rhs).(*ast.UnaryExpr); ok && u.Op == token.AND {
 					if t := target(u.X, depth-1); t != nil {
 						return t
@@ -725,6 +739,21 @@ func relatesTo(info *types.Info, body ast.Node, e ast.Expr, res types.Object) bo
 		return true
 	}
 	p := identObj(info, e)
+	// a variable declared first and assigned once (`var found *T; { c := topology; found = &c }`)
+	if p != nil {
+		var assigns []tt.Def
+		for _, d := range tt.DefsOf(info, body, p) {
+			if _, isDecl := d.Stmt.(*ast.ValueSpec); isDecl && d.Rhs == nil {
+				continue
+			}
+			assigns = append(assigns, d)
+		}
+		if len(assigns) == 1 && assigns[0].Rhs != nil && assigns[0].Index == -1 && assigns[0].Range == nil && ast.Unparen(assigns[0].Rhs) != ast.Unparen(e) {
+			if relatesTo(info, body, assigns[0].Rhs, res) {
+				return true
+			}
+		}
+	}
 	found := false
 	ast.Inspect(body, func(n ast.Node) bool {
 		as, ok := n.(*ast.AssignStmt)
